@@ -379,3 +379,64 @@ package dragonboat
 //@ requires p.batches != nil
 //@ modifies held(p.mu), entries(p.batches), p.lastGcTime
 //@ loop 1 step !(sys in p.batches) ==> rb.index > 0 && rb.index <= applied
+
+// ---------------------------------------------------------------- snapshot worker pool (C11)
+// From the property: no user state machine method runs after (or concurrently with) its Close.
+// A queued snapshot job is handed to a worker only together with the node that is CURRENTLY loaded
+// in the pool for the job's shard (the pool holds a reference that keeps that node from being
+// offloaded and closed); a job whose shard has left the pool is dropped, never started with the
+// node object it was created for.
+//@ func (p *workerPool) scheduleTask [C11]
+//@ trusted starts the job on the worker (marks it busy, sends it on the worker's channel)
+//@ requires j.shardID in p.nodes && n == p.nodes[j.shardID]
+//@ func (p *workerPool) getWorker [C11]
+//@ trusted picks an idle worker
+//@ func (p *workerPool) canSchedule [C11]
+//@ trusted per-shard exclusion rules between save / recover / stream jobs (reads only)
+//@ func (p *workerPool) removeFromPending [C11]
+//@ trusted removes the idx-th pending job
+//@ modifies p.pending, elems(p.pending)
+//@ func (p *workerPool) scheduleWorker [C11]
+//@ noframe
+//@ nobounds
+//@ iface (n nodeLoader) describe
+
+// When the pool is stopped, the worker goroutines are stopped (and waited for) BEFORE the pool gives
+// up its node references: a node may be offloaded -- and its user state machine closed -- only
+// when no snapshot job can still be running on it.
+// gStopped: the stoppers whose goroutines have been stopped and waited for
+//@ ghost var gStopped set
+//@ extern github.com/lni/goutils/syncutil (s *Stopper) Stop
+//@ ghostset gStopped := store(old(gStopped), obj(s), true)
+//@ extern github.com/lni/goutils/syncutil (s *Stopper) ShouldStop
+//@ func (p *workerPool) unloadNodes [C11]
+//@ trusted drops the pool's reference on every loaded and busy node
+//@ requires gStopped[obj(p.workerStopper)]
+//@ func (p *workerPool) loadNodes [C11]
+//@ trusted refreshes the pool's node map from the node host
+//@ modifies *p
+//@ func (p *workerPool) getSaveJob [C11]
+//@ trusted builds a save job from the node's pending request
+//@ func (p *workerPool) getRecoverJob [C11]
+//@ trusted builds a recover job from the node's pending request
+//@ func (p *workerPool) getStreamJob [C11]
+//@ trusted builds a stream job from the node's pending request
+//@ func (p *workerPool) completed [C11]
+//@ trusted bookkeeping of a finished job
+//@ modifies *p
+//@ func (p *workerPool) schedule [C11]
+//@ trusted runs scheduleWorker until nothing more can be scheduled
+//@ modifies *p
+//@ func (r *readyShard) waitCh [C11]
+//@ trusted returns the wake-up channel
+//@ func (r *readyShard) getReadyMap [C11]
+//@ trusted swaps and returns the ready set
+//@ extern time NewTicker
+//@ ensures result != nil
+//@ extern time (t *Ticker) Stop
+//@ extern reflect ValueOf
+//@ extern reflect Select
+//@ func (p *workerPool) workerPoolMain [C11]
+//@ noframe
+//@ nobounds
+//@ modifies gStopped
